@@ -81,4 +81,14 @@ Definition bip340_sign (d' : Z) (m a : bytes) : option bytes :=
       let sig := bytesP R ++ bytes32 ((k + e * d) mod n) in
       if bip340_verify (bytesP P) m sig then Some sig else None.
 
+(* The nonce k' of Default Signing on its own: the steps of the algorithm up to
+   "Let k' = int(rand) mod n" (what PrivateKey.bip340_k returns).  None: d' out of range. *)
+Definition bip340_nonce (d' : Z) (m a : bytes) : option Z :=
+  if (d' <=? 0) || (n <=? d') then None
+  else
+    let P := mulT C d' (G C) in
+    let d := if has_even_y P then d' else n - d' in
+    let t := xor (bytes32 d) (hash_tag t_aux a) in
+    Some (int_of (hash_tag t_nonce (t ++ bytesP P ++ m)) mod n).
+
 End Bip340.
